@@ -349,6 +349,22 @@ func genC17(r *Run) {
 		run(false, nil)
 		run(true, nil)
 		if a.id == 16 {
+			// a last name of 4..6 labels of 50..63 octets (200 .. 380 octets): with its terminator, without it (the value
+			// simply ends), alone and behind a valid name, and reached through a pointer at the end of the value
+			for _, k := range []int{4, 5, 6} {
+				for _, ll := range []int{50, 62, 63} {
+					var long []byte
+					for j := 0; j < k; j++ {
+						long = append(append(long, byte(ll)), bytes.Repeat([]byte{byte('a' + j)}, ll)...)
+					}
+					for _, pre := range [][]byte{nil, {2, 'o', 'k', 0}} {
+						run(true, append(append([]byte{}, pre...), long...))
+						run(true, append(append(append([]byte{}, pre...), long...), 0))
+						run(true, append(append(append(append([]byte{}, pre...), long...), 0), 1, 'z', 0xc0, byte(len(pre))))
+						run(true, append(append(append([]byte{}, pre...), long...), 1, 'z'))
+					}
+				}
+			}
 			// search lists the way servers send them: one full name, then many short names that end in a
 			// compression pointer to it (or to one of its later labels), up to the size of one option and beyond
 			for _, baseLabels := range []int{1, 2, 4, 6} {
